@@ -369,7 +369,45 @@ func genTwoRunReset(seed int64, n int, tier string) []Script {
 				tags = append(tags, "resetdata")
 			}
 			suf := suffixOps(r, rest, B)
-			if (kind == "DHP" || kind == "BDHP") && margin && r.Intn(2) == 0 {
+			staleLong := (kind == "DHP" || kind == "BDHP") && !margin && r.Intn(2) == 0
+			if staleLong {
+				// A long-gram entry that survives Reset: the history has the
+				// long gram L at position q; the new data has other bytes at
+				// q, the short prefix of L early on and L itself behind q. A
+				// surviving entry (q, L) sends the lookup to q, the comparison
+				// fails and the short-gram match is never tried.
+				il1 := pickInt(r, 2, 3)
+				il2 := il1 + 1
+				B = pickInt(r, 100, 150, 200)
+				cfg["BufferSize"], cfg["ShrinkSize"], cfg["WindowSize"], cfg["BlockSize"] = B, B/2, 2*B, pickInt(r, 32, 64, B)
+				cfg["InputLen1"], cfg["HashBits1"], cfg["InputLen2"], cfg["HashBits2"] = il1, 10, il2, 12
+				L := make([]byte, il2)
+				for j := range L {
+					L[j] = byte('A' + j)
+				}
+				q := 15 + r.Intn(20)
+				fill := func(n int) []byte {
+					out := make([]byte, n)
+					for j := range out {
+						out[j] = byte('a' + r.Intn(20))
+					}
+					return out
+				}
+				pre = append(append(fill(q), L...), fill(10+r.Intn(20))...)
+				nd := fill(5)
+				nd = append(nd, L[:il1]...)
+				nd = append(nd, byte('z'))
+				nd = append(nd, fill(q+3+r.Intn(10)-len(nd))...)
+				nd = append(nd, L...)
+				nd = append(nd, fill(8)...)
+				op := pumpOp(r, nd, B, "mixed")
+				op["chunk"], op["mode"], op["pearly"], op["pprobe"], op["pnil"], op["pntl"] = len(nd)+1, "write", 0, 0, 0, 0
+				suf = []map[string]any{op}
+				reset = map[string]any{"op": "reset"}
+				tags = append(tags, "stale-long-gram")
+			}
+			if staleLong {
+			} else if (kind == "DHP" || kind == "BDHP") && margin && r.Intn(2) == 0 {
 				// The last hashed position of a segment: its stored value may
 				// include bytes behind the data. Part A ends with a gram G and
 				// is skipped with Parse(nil) (the dictionary is filled up to
@@ -414,6 +452,9 @@ func genTwoRunReset(seed int64, n int, tier string) []Script {
 			// X1: parser with a history (fills, shrinks), Reset, same calls
 			ops = append(ops, map[string]any{"op": "run", "run": "X1"})
 			hist := pumpOp(r, pre, B, "mixed")
+			if staleLong {
+				hist["chunk"], hist["mode"], hist["pearly"], hist["pnil"], hist["pprobe"] = len(pre)+1, "write", 0, 0, 0
+			}
 			ops = append(ops, hist)
 			if r.Intn(3) == 0 {
 				pre2, _ := genInput(r, r.Intn(80))
